@@ -176,11 +176,31 @@ def register(T, repo):
 
     def list_contains(ex, st, coll, x, line):
         # membership in a summarised list of strings: unknown, except that
-        # an empty list contains nothing
+        # an empty list contains nothing.  The answer is remembered (ghost)
+        # so that `append only if absent` can be checked (C19).
         b = fresh_bool('member')
         st.assume(Implies(zint(coll.length()) == 0, Not(b)))
+        memq = st.ghost.setdefault('$memq', {})
+        key = (coll.lid, len(st.writes_of(coll)),
+               lift_str(x).arr.sexpr() if sym.is_str(x) else id(x))
+        memq[key] = b
         return b
     T.list_contains = list_contains
+
+    def list_append_hook(ex, st, lst, v, line):
+        # Parser.unknowns stays duplicate-free: a name is appended only on a
+        # path on which `name in self.unknowns` was evaluated to False for
+        # the same list state
+        if not any(isinstance(sg, Many) and sg.label == 'unknowns'
+                   for sg in lst.segs) and not getattr(lst, 'is_unknowns',
+                                                       False):
+            return
+        key = (lst.lid, len(st.writes_of(lst)),
+               lift_str(v).arr.sexpr() if sym.is_str(v) else id(v))
+        b = st.ghost.get('$memq', {}).get(key)
+        ex.prove(st, 'unknowns:append-only-if-absent@%d' % line,
+                 Not(b) if b is not None else False, line)
+    T.list_append_hook = list_append_hook
 
     def call_value(ex, st, fi, fv, args, kw, line):
         if isinstance(fv, pm.ReplU):
@@ -406,12 +426,21 @@ def register(T, repo):
         zint(E['buf'].fields['tokens'].length()) == 0)))
 
     # -------------------------------------------------------- expand_macro
+    def from_maths(A):
+        # C19: names used inside maths are not listed -- every call from
+        # the maths section loop passes math=True
+        ex = A['$ex']
+        if 'expand_math_section' in (ex.cur_func or ''):
+            return A['math']
+        return True
+
     c = T.add(FContract(
         PAR + 'expand_macro', ghosts=parser_ghost,
         params=lambda G: {'self': ParserS(G['src']),
                           'buf': cm.BufS(G['src']),
                           'tok': tm.DocTok(G['src']),
                           'math': BoolS('math')},
+        requires=[('maths-calls-pass-math-true', from_maths)],
         result=lambda A: tm.DocList(A['src']),
         post_objs=[('buffer', lambda A: A['buf'], post_buf),
                    ('parser', P_self, post_parser)]))
@@ -485,6 +514,7 @@ def register(T, repo):
                           'buf': cm.BufS(G['src']),
                           'tok': tm.DocTok(G['src']),
                           'math': BoolS('math')},
+        requires=[('maths-calls-pass-math-true', from_maths)],
         result=lambda A: tm.DocList(A['src']),
         post_objs=[('buffer', lambda A: A['buf'], post_buf),
                    ('parser', P_self, post_parser)]))
